@@ -12,6 +12,8 @@ import (
 	"regexp"
 	"strconv"
 	"strings"
+	"unicode"
+	"unicode/utf8"
 
 	"golang.org/x/tools/go/packages"
 )
@@ -1287,6 +1289,16 @@ func (in *Interp) eval(fr *Frame, e ast.Expr) Value {
 				name, _ := idx.(VStr).isLit()
 				return &VSpecial{Kind: "dep", Name: name}
 			}
+		case VStr:
+			if ls, ok := b.isLit(); ok {
+				if i, ok := idx.(VInt); ok && i.Known {
+					if i.V < 0 || i.V >= len(ls) {
+						in.gpanic(x.Pos(), "index %d out of range of a string of length %d", i.V, len(ls))
+					}
+					return VInt{Known: true, V: int(ls[i.V])}
+				}
+			}
+			return VInt{Sym: "byte(" + b.render() + "[" + origin(idx) + "])"}
 		}
 		in.fail("index on %T at %v", base, fr.pkg.Fset.Position(x.Pos()))
 	case *ast.SliceExpr:
@@ -1305,6 +1317,30 @@ func (in *Interp) eval(fr *Frame, e ast.Expr) Value {
 			}
 			return &VList{append([]Value{}, b.Elems[lo:hi]...)}
 		case VStr:
+			if ls, ok := b.isLit(); ok {
+				lo, hi := 0, len(ls)
+				okb := true
+				if x.Low != nil {
+					if v, ok := in.eval(fr, x.Low).(VInt); ok && v.Known {
+						lo = v.V
+					} else {
+						okb = false
+					}
+				}
+				if x.High != nil {
+					if v, ok := in.eval(fr, x.High).(VInt); ok && v.Known {
+						hi = v.V
+					} else {
+						okb = false
+					}
+				}
+				if okb {
+					if lo < 0 || hi > len(ls) || lo > hi {
+						in.gpanic(x.Pos(), "slice bounds out of range (%s on a string of length %d)", types.ExprString(x), len(ls))
+					}
+					return lit(ls[lo:hi])
+				}
+			}
 			return hole("OPAQUE", "slice("+b.render()+")")
 		}
 		in.fail("slice of %T", base)
@@ -1466,7 +1502,29 @@ func (in *Interp) call(fr *Frame, c *ast.CallExpr) Value {
 	info := in.info(fr)
 	// conversions
 	if tv, ok := info.Types[c.Fun]; ok && tv.IsType() {
-		return in.eval(fr, c.Args[0])
+		v := in.eval(fr, c.Args[0])
+		if sv, ok := v.(VStr); ok {
+			if ls, isLit := sv.isLit(); isLit {
+				switch types.ExprString(c.Fun) {
+				case "[]rune":
+					l := &VList{}
+					for _, r := range ls {
+						l.Elems = append(l.Elems, VInt{Known: true, V: int(r)})
+					}
+					return l
+				case "[]byte":
+					l := &VList{}
+					for i := 0; i < len(ls); i++ {
+						l.Elems = append(l.Elems, VInt{Known: true, V: int(ls[i])})
+					}
+					return l
+				}
+			}
+		}
+		if iv, ok := v.(VInt); ok && iv.Known && types.ExprString(c.Fun) == "string" {
+			return lit(string(rune(iv.V)))
+		}
+		return v
 	}
 	// builtins
 	if id, ok := c.Fun.(*ast.Ident); ok {
@@ -1790,6 +1848,28 @@ func (in *Interp) call(fr *Frame, c *ast.CallExpr) Value {
 				out = out.concat(lit(rest))
 			}
 			return out
+		case "extfunc:unicode.IsLower", "extfunc:unicode.IsUpper", "extfunc:unicode.IsLetter", "extfunc:unicode.IsDigit":
+			if r, ok := args[0].(VInt); ok && r.Known {
+				switch f.Origin {
+				case "extfunc:unicode.IsLower":
+					return VBool{Known: true, V: unicode.IsLower(rune(r.V))}
+				case "extfunc:unicode.IsUpper":
+					return VBool{Known: true, V: unicode.IsUpper(rune(r.V))}
+				case "extfunc:unicode.IsLetter":
+					return VBool{Known: true, V: unicode.IsLetter(rune(r.V))}
+				default:
+					return VBool{Known: true, V: unicode.IsDigit(rune(r.V))}
+				}
+			}
+		case "extfunc:unicode/utf8.DecodeRuneInString":
+			if ls, ok := args[0].(VStr).isLit(); ok {
+				r, n := utf8.DecodeRuneInString(ls)
+				return VTuple{[]Value{VInt{Known: true, V: int(r)}, VInt{Known: true, V: n}}}
+			}
+		case "extfunc:go/token.IsExported", "extfunc:go/ast.IsExported":
+			if ls, ok := args[0].(VStr).isLit(); ok {
+				return VBool{Known: true, V: token.IsExported(ls)}
+			}
 		case "extfunc:strings.ToLower", "extfunc:strings.ToUpper", "extfunc:strings.TrimSpace":
 			if sl, ok := args[0].(VStr).isLit(); ok {
 				switch f.Origin {
